@@ -464,3 +464,117 @@ def rule_wire(chk, prog, rule="WIRE", which=("REQ4", "RESP4", "RESP5", "REQ5")):
                         "between handshake and tunnelled payload" % (label, wf[0].path, sorted(missing, key=str) or "nothing unexpected", rf[0].path,
                                                                     ("; and never produces %s which the decoder expects" % sorted(unused, key=str)) if (unused and both) else ""))
     chk.floor(rule, n, len(which), "encoder/decoder pairs compared")
+
+
+_PFX_SINK = re.compile(r"BufMut::put_(u8|u16)$|AsyncWriteExt::write_(u8|u16)$|Vec::<T, A>::(insert|push)$|into_vec$|box_assume_init_into_vec|"
+                       r"BytesMut::(extend_from_slice|put)$")
+_PFX_FIELD = re.compile(r"BufMut::(put_slice|put)$|AsyncWriteExt::write_all$|Vec::<T, A>::(extend_from_slice|append)$|Extend::extend$|"
+                        r"BytesMut::(extend_from_slice|unsplit)$|Buf::chain$")
+_COUNT_LIKE = re.compile(r"::(count|len|remaining|capacity|size_hint|char_indices|chars)$")
+
+
+def _measure_root(f, op, depth=14):
+    """the named local / argument (with its field path) a reference operand denotes, looking through borrows, copies and
+    as_bytes()/deref()/as_ref()"""
+    from .bytebudget import DEREFS
+    p = op_place(op)
+    while p and depth > 0:
+        depth -= 1
+        l = p[0]
+        proj = [x for x in p[1:] if x != "*"]
+        if f.local_name(l) or 1 <= l <= f.arg_count or proj:
+            return (l,) + tuple(proj)
+        d = f.single_def(l)
+        if not d:
+            return (l,)
+        if d[1] == "term":
+            c = f.call_at(d[0])
+            if c is not None and c.args and any(re.search(x, c.path or "") for x in DEREFS):
+                p = op_place(c.args[0])
+                continue
+            return (l,)
+        rv = d[2]
+        if rv["k"] == "ref":
+            p = rv["p"]
+            continue
+        if rv["k"] in ("use", "cast"):
+            p = op_place(rv["a"])
+            continue
+        return (l,)
+    return None
+
+
+def rule_lenpfx(chk, prog, rule="LENPFX", files=("src/common/frames.rs", "src/common/socks.rs"), need=6):
+    """A length prefix written to the wire is the byte length of the field written after it.  Sites = narrowing casts (usize -> u8/u16)
+    of a value that is a sum of length-like call results and constants and that flows into a put_u8/put_u16/write_u8/insert/vec![..];
+    every length-like term must be a *byte* length (`str::len`, `[u8]::len`, `Bytes::len`, ..) -- not a count of characters or items.
+    Within one encoder, a prefix whose measured object is not among the variable-length fields written after it, while one of those
+    fields is measured by no prefix, is a prefix of the wrong field."""
+    from .bytebudget import linform, LEN_FNS
+    n = 0
+    for f in sorted(prog.fns.values(), key=lambda x: x.key):
+        if f.crate != "redproxy_rs" or not any(f.file.endswith(x) for x in files):
+            continue
+        sites = []
+        for b in sorted(f.reachable):
+            for st in f.stmts(b):
+                if st["k"] != "assign" or st["rv"]["k"] != "cast" or not st["rv"].get("ck", "").startswith("IntToInt"):
+                    continue
+                dk = f.ty(st["rv"]["ty"])["k"]
+                if dk not in ("u8", "u16") or len(st["lhs"]) != 1:
+                    continue
+                lf = linform(f, st["rv"]["a"])
+                if not lf:
+                    continue
+                lens, bad = [], []
+                for s in lf:
+                    if s == 1 or not (isinstance(s, tuple) and s[0] == "l"):
+                        continue
+                    c = f.def_call(s[1])
+                    if c is None:
+                        continue
+                    if LEN_FNS.match(c.path or ""):
+                        lens.append(c)
+                    elif _COUNT_LIKE.search(c.path or ""):
+                        bad.append(c)
+                if not lens and not bad:
+                    continue
+                tracked, cons = flow_forward(f, [st["lhs"][0]], [])
+                sinks = [info for kind, bb, info, l in cons if kind == "call" and _PFX_SINK.search(info.path or "")]
+                if not sinks:
+                    continue
+                where = "%s:%s" % (f.file, f.blocks[b].get("sp", {}).get("l", f.line))
+                sites.append((b, dk, lens, bad, sinks, where))
+        if not sites:
+            continue
+        measured = set()
+        for (b, dk, lens, bad, sinks, where) in sites:
+            for c in lens:
+                r = _measure_root(f, c.args[0]) if c.args else None
+                if r is not None:
+                    measured.add(r)
+        fields = []
+        for x in f.calls:
+            if _PFX_FIELD.search(x.path or "") and len(x.args) >= 2:
+                r = _measure_root(f, x.args[1])
+                fields.append((x, r))
+        for (b, dk, lens, bad, sinks, where) in sites:
+            n += 1
+            roots = [(_measure_root(f, c.args[0]) if c.args else None) for c in lens]
+            ok, why = True, "byte length of %s" % ", ".join(sorted(set(f.root_name(r[0]) + "".join("." + str(x) for x in r[1:]) for r in roots if r)))
+            if bad:
+                ok, why = False, "the prefix is computed from %s, which is not the number of bytes written" % ", ".join(short(c.path) for c in bad)
+            elif roots and all(r is not None for r in roots):
+                after = [(x, r) for (x, r) in fields if any(f.dominates(s_.bb, x.bb) and s_.bb != x.bb for s_ in sinks)]
+                mine = [x for (x, r) in after if r in roots] + [s_ for s_ in sinks if s_.args and _measure_root(f, s_.args[0]) in roots]
+                orphan = [(x, r) for (x, r) in after if r is not None and r not in measured]
+                if not mine and orphan:
+                    ok = False
+                    why = "measures %s but the variable-length field written after it is %s" % (
+                        why[15:], ", ".join(sorted(set(f.root_name(r[0]) for (x, r) in orphan))))
+            chk.instance(rule, where, "%s: length prefix (%s) = byte length of the field that follows" % (f.path, dk), ok, why)
+            if not ok:
+                chk.finding(rule, f.key, "length-prefix", dk, where,
+                            "%s writes a %s length prefix that is not the byte length of the field that follows it (%s): the decoder "
+                            "cuts the field at the wrong place and reads the remainder as the next field (a different host / port)" % (f.path, dk, why))
+    chk.floor(rule, n, need, "length-prefix sites in the frame and SOCKS encoders")
